@@ -14,18 +14,9 @@ DISPOSITION={
 for res in sorted(glob.glob('/verif/work/seedres/*.txt')):
     name=os.path.basename(res)[:-4]; pid,k=name.split('-')
     src='/tmp/seed-%s'%pid
-    if pid.endswith('r2'):
-        pid=pid[:-2]; src='/tmp/seed2-%s'%pid
-    elif pid.endswith('r3'):
-        pid=pid[:-2]; src='/tmp/seed3-%s'%pid
-    elif pid.endswith('r4'):
-        pid=pid[:-2]; src='/tmp/seed4-%s'%pid
-    elif pid.endswith('r5'):
-        pid=pid[:-2]; src='/tmp/seed5-%s'%pid
-    elif pid.endswith('r6'):
-        pid=pid[:-2]; src='/tmp/seed6-%s'%pid
-    elif pid.endswith('r7'):
-        pid=pid[:-2]; src='/tmp/seed7-%s'%pid
+    mr=re.match(r'(C\d+)r(\d+)$',pid)
+    if mr:
+        pid=mr.group(1); src='/tmp/seed%s-%s'%(mr.group(2),pid)
     kv={}
     for l in open(res):
         if '=' in l:
